@@ -11,11 +11,11 @@ using namespace c15;
 
 namespace
 {
-const double B_PL_UNIT = 8, B_PL_DEF3 = 32, B_PL_DEFPN = 16, B_PL_DEFND = 16, B_PL_PARALLEL = 16;
-const double B_RF_NEG = 32, B_RF_INV = 32, B_RF_PAR = 32, B_RV = 32;
-const double B_PI_PLANE = 32, B_PI_LINE = 16, B_PI_T = 32, B_PI_AGREE = 16;
-const double B_PT_IN = 64, B_PT_NEG = 16;
-const double B_SP_T = 32, B_CIRC = 16;
+const double B_PL_UNIT = 16, B_PL_DEF3 = 16, B_PL_DEFPN = 16, B_PL_DEFND = 16, B_PL_PARALLEL = 16;
+const double B_RF_NEG = 32, B_RF_INV = 64, B_RF_PAR = 16, B_RV = 64, B_RV_INV = 128;
+const double B_PI_PLANE = 16, B_PI_LINE = 16, B_PI_T = 16, B_PI_AGREE = 16;
+const double B_PT_IN = 16, B_PT_NEG = 32;
+const double B_SP_T = 8, B_CIRC = 16;
 
 template <class R, class T> inline R sdist (const Plane3<T>& p, const RV<R, 3>& x)
 {
@@ -153,7 +153,7 @@ sub_plane_build (Ctx& c, uint64_t idx)
             double   tol = eps * std::fabs ((double) d);
             judge (c, "Plane3(normal,distance)." + tn + ":point_off_plane", "Plane3(normal,distance)." + tn + ".dist/(eps*|d|)", (double) r_abs (sdist<R> (pl, X)), tol, B_PL_DEFND, idx, desc);
             Vec3<T> xp = pl.normal * d;
-            judge (c, "Plane3::distanceTo." + tn + ":defining_point", "Plane3::distanceTo(def.point,nd)." + tn + "/(eps*|d|)", (double) std::fabs ((double) pl.distanceTo (xp)), tol, B_PL_DEFND, idx, desc);
+            judge (c, "Plane3::distanceTo." + tn + ":defining_point", "Plane3::distanceTo(def.point,nd)." + tn + "/(eps*|d|)", (double) std::fabs ((double) pl.distanceTo (xp)), tol, 2 * B_PL_DEFND, idx, desc);
             c.sample ("normal_distance", desc);
         }
     }
@@ -241,7 +241,7 @@ sub_plane_reflect (Ctx& c, uint64_t idx)
     double   vl = (double) len (V);
     auto     dv = [&] { return Obj ().raw ("plane", jsp (pl)).raw ("vec", js (v)).raw ("reflectVector", js (rv)).raw ("reflectVector_twice", js (rv2)).str (); };
     if (!all_finite (rv) || !all_finite (rv2)) { c.fail ("reflectVector." + tn + ":nonfinite", idx, dv); return; }
-    judge (c, "reflectVector." + tn + ":not_involution", "reflectVector." + tn + ".inv/(eps*|v|)", (double) len (RV2 - V), eps * vl, B_RV, idx, dv);
+    judge (c, "reflectVector." + tn + ":not_involution", "reflectVector." + tn + ".inv/(eps*|v|)", (double) len (RV2 - V), eps * vl, B_RV_INV, idx, dv);
     judge (c, "reflectVector." + tn + ":length_changed", "reflectVector." + tn + ".len/(eps*|v|)", (double) r_abs (len (RVv) - len (V)), eps * vl, B_RV, idx, dv);
     // the reflected vector has the same component along the normal and the negated tangential component:
     // equivalently rv + v is parallel to the normal and rv - v is perpendicular to it (a reflection, not the identity / point inversion)
@@ -469,18 +469,21 @@ sub_plane_xform (Ctx& c, uint64_t idx)
     c.cls (mn[mk]);
     c.cls (det > 0 ? "orientation_preserving" : "orientation_reversing");
     c.nontrivial (hashv (Vec4<T> (Mx[0][0], Mx[1][1], Mx[2][1], Mx[3][0]), hashv (pl.normal, d2u ((double) pl.distance))));
-    double G = (double) ((len (X0) * fro + len (X0p) + Lp) * Lp / Ap);
+    const double lX0 = dlen (X0), lX0p = dlen (X0p), dfro = (double) fro;
+    double G = (lX0 * dfro + lX0p + (double) Lp) * (double) (Lp / Ap);
+    RV<R, 3> npn = up<R> (pt.normal);
+    const R  nlp = len (npn);
+    auto sdp_of = [&] (const RV<R, 3>& x) { return (dot (npn, x) - (R) pt.distance) / nlp; };
     {
-        RV<R, 3> np = up<R> (pt.normal);
-        judge (c, "operator*(Plane3,Matrix44)." + tn + ":unit_normal", "operator*(Plane3,Matrix44)." + tn + ".unit_normal/eps", (double) r_abs (len (np) - 1), eps, B_PL_UNIT, idx, [&] { return desc0 ().str (); });
+        judge (c, "operator*(Plane3,Matrix44)." + tn + ":unit_normal", "operator*(Plane3,Matrix44)." + tn + ".unit_normal/eps", (double) r_abs (nlp - 1), eps, B_PL_UNIT, idx, [&] { return desc0 ().str (); });
     }
     // points of the plane -> must lie on plane*M
     for (int s = 0; s < 4; ++s)
     {
         R        a = (R) (s == 0 ? 0.0 : r.sym (s == 3 ? 64.0 : 4.0)), b = (R) (s == 0 ? 0.0 : r.sym (s == 3 ? 64.0 : 4.0));
         RV<R, 3> X = X0 + e1 * a + e2 * b, Xp = xf (X);
-        double   tol = eps * (G * (double) len (Xp - X0p) + (double) len (X0p) + (double) len (Xp) + (double) len (X0) * (double) fro);
-        R        sd = sdist<R> (pt, Xp);
+        double   tol = eps * (G * dlen (Xp - X0p) + lX0p + dlen (Xp) + lX0 * dfro);
+        R        sd = sdp_of (Xp);
         judge (c, "operator*(Plane3,Matrix44)." + tn + ":transformed_point_off_plane", "operator*(Plane3,Matrix44)." + tn + ".in_plane/(eps*(G*r+|x0'|+|x'|))", (double) r_abs (sd), tol, B_PT_IN, idx,
                [&] { return desc0 ().raw ("plane_point", js (Vec3<double> ((double) X[0], (double) X[1], (double) X[2]))).raw ("transformed", js (Vec3<double> ((double) Xp[0], (double) Xp[1], (double) Xp[2]))).kv ("signed_distance_to_result", (double) sd).str (); });
     }
@@ -491,9 +494,9 @@ sub_plane_xform (Ctx& c, uint64_t idx)
         RV<R, 3> X = X0 + e1 * (R) r.sym (4.0) + e2 * (R) r.sym (4.0) + n * ((R) h / nl);
         Vec3<T>  q ((T) (double) X[0], (T) (double) X[1], (T) (double) X[2]);
         RV<R, 3> Q = up<R> (q), Qp = xf (Q);
-        R        sd = sdist<R> (pl, Q), sdp = sdist<R> (pt, Qp);
-        double   tol0 = eps * ((double) len (Q) + std::fabs ((double) pl.distance));
-        double   tol = eps * (G * (double) len (Qp - X0p) + (double) len (X0p) + (double) len (Qp) + (double) len (X0) * (double) fro);
+        R        sd = (dot (n, Q) - (R) pl.distance) / nl, sdp = sdp_of (Qp);
+        double   tol0 = eps * (dlen (Q) + std::fabs ((double) pl.distance));
+        double   tol = eps * (G * dlen (Qp - X0p) + lX0p + dlen (Qp) + lX0 * dfro);
         if (!(det > 0)) { c.cls ("side_not_judged_orientation_reversing"); continue; }
         if ((double) r_abs (sd) <= 64 * tol0 || (double) r_abs (sdp) <= 8 * B_PT_IN * tol) { c.cls ("side_skipped_margin"); continue; }
         c.cls ("side_judged");
